@@ -120,7 +120,7 @@ class TlcResult:
                   (rc == 0 and "Finished in" in out and "Error:" not in out)
         # coverage: <Action line a, col b to line c, col d of module M>: distinct:generated
         self.actions = {}
-        for m in re.finditer(r"^<(\w+) line \d+, col \d+ to line \d+, col \d+ of module (\w+)>: (\d+):(\d+)",
+        for m in re.finditer(r"^<(\w+) line \d+, col \d+ to line \d+, col \d+ of module (\w+)(?: \([\d ]+\))?>: (\d+):(\d+)",
                              out, re.M):
             name = m.group(1)
             d, g = int(m.group(3)), int(m.group(4))
